@@ -70,7 +70,7 @@ fn dce_block_with_live(
                                 live.insert(u.clone());
                             }
                             // Keep side effects before the declaration in final order
-                            out.push(ast::Stmt::Expr(v));
+                            out.push(effect_stmt(v));
                         }
                         // Keep declaration without initializer
                         out.push(ast::Stmt::VarDecl {
@@ -95,7 +95,7 @@ fn dce_block_with_live(
                         for u in &used_rhs {
                             live.insert(u.clone());
                         }
-                        out.push(ast::Stmt::Expr(v));
+                        out.push(effect_stmt(v));
                     }
                 }
             }
@@ -116,7 +116,7 @@ fn dce_block_with_live(
                         for u in &used_rhs {
                             live.insert(u.clone());
                         }
-                        out.push(ast::Stmt::Expr(value));
+                        out.push(effect_stmt(value));
                     }
                 }
             }
@@ -265,6 +265,18 @@ fn dce_block_with_live(
 
     out.reverse();
     (ast::Block { stmts: out }, live)
+}
+
+// An expression kept only for its effect must still be a valid Go statement:
+// calls may stand alone, anything else is evaluated into the blank identifier.
+fn effect_stmt(e: ast::Expr) -> ast::Stmt {
+    match e {
+        ast::Expr::Call { .. } | ast::Expr::Block { .. } => ast::Stmt::Expr(e),
+        _ => ast::Stmt::Assignment {
+            name: "_".to_string(),
+            value: e,
+        },
+    }
 }
 
 fn dce_expr(expr: ast::Expr) -> ast::Expr {
@@ -605,10 +617,14 @@ fn expr_has_side_effects(e: &ast::Expr) -> bool {
                     .unwrap_or(false)
         }
         ast::Expr::FieldAccess { obj, .. } => expr_has_side_effects(obj),
-        ast::Expr::Index { array, index, .. } => {
-            expr_has_side_effects(array) || expr_has_side_effects(index)
-        }
+        // indexing can fail at run time (index out of range)
+        ast::Expr::Index { .. } => true,
         ast::Expr::UnaryOp { expr, .. } => expr_has_side_effects(expr),
+        // division can fail at run time (integer division by zero)
+        ast::Expr::BinaryOp {
+            op: ast::GoBinaryOp::Div,
+            ..
+        } => true,
         ast::Expr::BinaryOp { lhs, rhs, .. } => {
             expr_has_side_effects(lhs) || expr_has_side_effects(rhs)
         }
